@@ -314,6 +314,58 @@ def rule_args(ctx):
             ctx.holds('R5', '_check_stack_args accepts ' + form)
 
 
+def rule_dict_pairing(ctx):
+    """R10: "the slice at key k holds exactly the labelled data of arrays[k]" for dict input: the list of arrays and the list of keys that
+    _check_stack_args hands on must be paired by key"""
+    ctx.rule('R10', '_check_stack_args: for a dict, the i-th array is the one stored under the i-th key', 2)
+    fi = ctx.fn(AL + '_check_stack_args')
+    ARR_, KEYS_ = P_('arrays'), P_('keys')
+
+    def oracle(atom, st):
+        if atom[0] == 'call' and T.dotted(atom[1]) == 'isinstance' and atom[2] == (ARR_, ('name', 'dict')):
+            return True
+        if atom[0] == 'cmp' and atom[1] == 'in' and atom[2][0] == 'call' and T.dotted(atom[2][1]) == 'type' and atom[3][0] in ('tuple', 'list'):
+            return True
+        if atom[0] == 'cmp' and atom[1] == 'is' and atom[3] == T.CONST_NONE and atom[2] != KEYS_:
+            return False           # list(...) / sorted(...) is never None
+        return None
+    ev = run(ctx, fi, oracle=oracle)
+
+    def views(t):
+        """('keys'|'values', wrapper) when t is list(arrays.keys()) / list(arrays.values()) / sorted(arrays.keys()) ..."""
+        if t[0] == 'call' and T.dotted(t[1]) in ('list', 'tuple', 'sorted') and len(t[2]) == 1:
+            x = t[2][0]
+            if x[0] == 'call' and T.call_name(x) in ('keys', 'values') and T.call_receiver(x) == ARR_:
+                return T.call_name(x), T.dotted(t[1])
+            if x == ARR_:
+                return 'keys', T.dotted(t[1])          # iterating a dict yields its keys
+        return None
+
+    def by_key(arrs, keys):
+        # [arrays[k] for k in keys]
+        return arrs[0] == 'comp' and arrs[2][0] == 'sub' and arrs[2][1] == ARR_ and arrs[2][2][0] == 'elem' and arrs[2][2][1] == keys
+    for p in ret_paths(ev):
+        v = p.value
+        if v[0] != 'tuple' or len(v[1]) != 2:
+            ctx.undecide('R10', '_check_stack_args returns %s' % T.show(v)[:80])
+            continue
+        arrs, keys = v[1]
+        given = [pol for a, pol in p.guards if a == T.mkcmp('is', KEYS_, T.CONST_NONE)]
+        inst = 'dict, keys %s' % ('given' if given == [False] else 'omitted')
+        if by_key(arrs, keys):
+            ctx.holds('R10', inst + ': arrays looked up by key')
+            continue
+        va, vk = views(arrs), views(keys)
+        if va == ('values', 'list') and vk is not None and vk[0] == 'keys' and vk[1] in ('list', 'tuple'):
+            ctx.holds('R10', inst + ': keys() and values() of the same dict, both in insertion order')
+            continue
+        if va is not None and va[0] == 'values' and (keys == KEYS_ or (vk is not None and vk[1] == 'sorted') or (va[1] == 'sorted')):
+            ctx.violated('R10', fi, inst, 'the arrays are taken as %s(arrays.values()) (storage order) while the keys are %s: the i-th array is not the one stored under the i-th key, '
+                         'so the slice labelled k holds the data of another entry (expected [arrays[k] for k in keys])' % (va[1], T.show(keys)[:50]), node=p.node)
+            continue
+        ctx.undecide('R10', '%s: pairing of %s with %s not recognised' % (inst, T.show(arrs)[:60], T.show(keys)[:60]))
+
+
 def rule_env(ctx):
     ctx.rule('R6', 'NumPy names reachable from stack / concatenate resolve', 1)
     npapi.check_reachable(ctx, 'R6', [ctx.fn(AL + 'stack'), ctx.fn(AL + 'concatenate'), ctx.fn(AL + 'align')], depth=3)
@@ -323,6 +375,7 @@ def check(ctx):
     rule_stack(ctx)
     rule_concatenate(ctx)
     rule_args(ctx)
+    rule_dict_pairing(ctx)
     rule_env(ctx)
     # align=True delegates to align(): its reindex loop and the kind reconciliation of the merged axis
     from . import c06
